@@ -40,6 +40,19 @@ TARGETS = {
 ALSO = {"C07": ["fz_c06_capi", "fz_c05_kernels"], "C04": [], "C12": ["fz_c13_text"]}
 
 THOROUGH_RUNS = 300000
+# fixed work per target (executions); slow targets (files, rayon pools, ASan) get fewer
+RUNS = {
+    "fz_c02_histories": 25000,
+    "fz_c06_capi": 120000,
+    "fz_c09_decomp": 120000,
+    "fz_c10_reset": 120000,
+    "fz_c16_traits": 200000,
+    "fz_c03_streams": 1000000,
+    "fz_c05_kernels": 600000,
+    "fz_c13_roundtrip": 2000000,
+    "fz_c13_text": 2000000,
+    "fz_c14_hash": 3000000,
+}
 
 
 def targets_of(prop):
@@ -132,7 +145,7 @@ def _run_campaign(prop, seed, runs):
         art = os.path.join(WORK, "fuzz", "artifacts-%s" % t) + "/"
         os.makedirs(art, exist_ok=True)
         cmd = [fuzz_bin(t), work_corpus] + ([src] if os.path.isdir(src) else []) + [
-            "-runs=%d" % runs, "-seed=%d" % (seed + 1), "-len_control=0", "-max_len=2048", "-timeout=120", "-rss_limit_mb=4096",
+            "-runs=%d" % RUNS.get(t, runs), "-seed=%d" % (seed + 1), "-len_control=0", "-max_len=2048", "-timeout=120", "-rss_limit_mb=4096",
             "-artifact_prefix=%s" % art, "-print_final_stats=1"]
         t0 = time.time()
         p = subprocess.run(cmd, cwd=ROOT, env=_fuzz_env(), stdout=subprocess.PIPE, stderr=subprocess.STDOUT, text=True)
